@@ -36,6 +36,7 @@ type Program struct {
 	effects  *Effects
 	fieldOwners map[*types.Var]string
 	cheapMemo   map[*ssa.Function]int
+	sharedTouch map[*ssa.Function]bool
 }
 
 type loadOpts struct {
